@@ -340,3 +340,15 @@ Lemma trace_elements_all phys fixed opt st ocs res :
   In res (trace_gen phys fixed opt st ocs) ->
   exists st0 oc st1, step_gen phys fixed opt st0 oc = (st1, res).
 Proof. apply trace_elements. Qed.
+
+(* the current step: a build that has errors when the write phase starts, does
+   not write, or is in stdout mode leaves the disk as it is *)
+Lemma nonwriting_step_disk_unchanged phys opt st oc st' r :
+  step phys opt st oc = (st', r) ->
+  r_failed_early r = true \/ write opt = false \/ to_stdout opt = true ->
+  disk st' = disk st /\ r_effects r = [].
+Proof.
+  intros E H. destruct (failed_step_shape _ _ _ _ _ _ _ E H) as [dels [EE [ED [_ Hne]]]].
+  destruct dels as [|d dels]; [rewrite ED, EE; split; reflexivity|].
+  assert (N : d :: dels <> []) by discriminate. destruct (Hne N) as [_ [F _]]. discriminate.
+Qed.
